@@ -460,3 +460,309 @@ inductive CastRule where
         out.append("]\n")
         out.append(T.footer("EvalSites"))
         return "".join(out)
+
+
+    # ----------------------------------------------------------------------------------------------
+    # PosTable: what the positions that demand a constant do with the evaluated constant —
+    # `Constant::to_uint64` / `to_f32`, the range guards of every site, the kinds a template argument may have,
+    # the enumerator sequence (first value, successor per kind, overflow) and the deduction of the underlying type
+    # ----------------------------------------------------------------------------------------------
+    @gen("PosTable")
+    def pos_table():
+        ir_types = T.src("ir/src/ir_types.rs")
+        kinds = [v for v, _ in enum_variants(ir_types, "Constant")]
+        out = ["import RsslVerif.Gen.EvalTable\n" + T.header("PosTable", ["ir/src/ir_types.rs", "typer/src/typer/{declarations,enums,scopes,statements,globals,pipelines,types}.rs"])]
+        out.append("open RsslVerif.Gen.EvalTable (Kind Scalar)\n\n")
+        out.append("""/-- guard / conversion of one arm of `Constant::to_uint64` -/
+inductive UArm where
+  | fromBool        -- `Some(u64::from(*v))`
+  | always          -- `Some(*v as u64)` (an unsigned payload) / `Some(*v)`
+  | nonNeg          -- `if *v >= 0 => Some(*v as u64)`
+  | litU64          -- `if *v >= 0 && *v <= u64::MAX as i128 => Some(*v as u64)`
+  deriving DecidableEq, Repr, Inhabited
+
+/-- one arm of `Constant::to_f32` -/
+inductive FArm where
+  | fromBool        -- `Some(f32::from(*v))`
+  | always          -- `Some(*v as f32)`
+  | nonNeg          -- `if *v >= 0 => Some(*v as f32)`
+  | litMax          -- `if *v <= f32::MAX as i128 => Some(*v as f32)`
+  | same            -- `Some(*v)` (already an f32 payload)
+  deriving DecidableEq, Repr, Inhabited
+
+/-- how a site turns the evaluated constant into a count -/
+structure SizeRule where
+  /-- `Ok(ir::Constant::Enum(_, val)) => val.to_uint64()` before the general arm -/
+  unwrapEnum : Bool
+  /-- `Some(0)` is an error of its own -/
+  rejectZero : Bool
+  /-- accepted only `if v <= u32::MAX as u64` -/
+  max32 : Bool
+  deriving DecidableEq, Repr, Inhabited
+
+/-- successor of an enumerator without initialiser, per kind of the previous value -/
+inductive NextArm where
+  | checkedSucc       -- `v.checked_add(1).map(ir::Constant::K)` : same kind, `None` = EnumValueOverflow
+  | boolSucc          -- `Some(ir::Constant::Int32(i32::from(v) + 1))`
+  deriving DecidableEq, Repr, Inhabited
+
+""")
+
+        def arms_of(body, what):
+            try:
+                _, arms, _ = first_match(body, r"^\*?self$")
+            except ExtractError:
+                raise ExtractError(f"{what}: `match self` not found")
+            return match_arms(arms)
+
+        # ---- Constant::to_uint64
+        tu = impl_fn_body(ir_types, r"Constant\b", "to_uint64")
+        rows = []
+        dflt = False
+        for pats, guard, result in arms_of(tu, "to_uint64"):
+            r = normws(result)
+            if pats == ["_"]:
+                if r != "None":
+                    raise ExtractError(f"to_uint64: default arm is {r!r}")
+                dflt = True
+                continue
+            for pt in pats:
+                pm = re.fullmatch(r"Constant::(\w+)\(v\)", pt)
+                if not pm or pm.group(1) not in kinds:
+                    raise ExtractError(f"to_uint64: pattern {pt!r}")
+                k = pm.group(1)
+                g = normws(guard) if guard else None
+                if g is None and r == "Some(u64::from(*v))" and k == "Bool":
+                    arm = ".fromBool"
+                elif g is None and r in ("Some(*v as u64)", "Some(*v)") and k in ("UInt32", "UInt64"):
+                    arm = ".always"
+                elif g == "*v >= 0" and r == "Some(*v as u64)" and k in ("Int32", "Int64"):
+                    arm = ".nonNeg"
+                elif g == "*v >= 0 && *v <= u64::MAX as i128" and r == "Some(*v as u64)" and k == "IntLiteral":
+                    arm = ".litU64"
+                else:
+                    raise ExtractError(f"to_uint64: cannot classify arm {pt} if {g} => {r}")
+                rows.append((k, arm))
+        if not dflt:
+            raise ExtractError("to_uint64: no `_ => None` arm")
+        out.append("/-- `Constant::to_uint64`; kinds not listed give `None` -/\n")
+        out.append("def toUint64Table : List (Kind × UArm) := " + T.lean_list(f"(.{k}, {a})" for k, a in rows) + "\n\n")
+
+        # ---- Constant::to_f32
+        tf = impl_fn_body(ir_types, r"Constant\b", "to_f32")
+        rows = []
+        dflt = False
+        for pats, guard, result in arms_of(tf, "to_f32"):
+            r = normws(result)
+            if pats == ["_"]:
+                if r != "None":
+                    raise ExtractError(f"to_f32: default arm is {r!r}")
+                dflt = True
+                continue
+            for pt in pats:
+                pm = re.fullmatch(r"Constant::(\w+)\(v\)", pt)
+                if not pm or pm.group(1) not in kinds:
+                    raise ExtractError(f"to_f32: pattern {pt!r}")
+                k = pm.group(1)
+                g = normws(guard) if guard else None
+                if g is None and r == "Some(f32::from(*v))" and k == "Bool":
+                    arm = ".fromBool"
+                elif g is None and r == "Some(*v as f32)" and k in ("UInt32", "UInt64", "Float64", "Int32", "Int64", "IntLiteral", "FloatLiteral"):
+                    arm = ".always"
+                elif g is None and r == "Some(*v)" and k in ("Float16", "Float32"):
+                    arm = ".same"
+                elif g == "*v >= 0" and r == "Some(*v as f32)" and k in ("Int32", "Int64"):
+                    arm = ".nonNeg"
+                elif g == "*v <= f32::MAX as i128" and r == "Some(*v as f32)" and k == "IntLiteral":
+                    arm = ".litMax"
+                else:
+                    raise ExtractError(f"to_f32: cannot classify arm {pt} if {g} => {r}")
+                rows.append((k, arm))
+        if not dflt:
+            raise ExtractError("to_f32: no `_ => None` arm")
+        out.append("/-- `Constant::to_f32`; kinds not listed give `None` -/\n")
+        out.append("def toF32Table : List (Kind × FArm) := " + T.lean_list(f"(.{k}, {a})" for k, a in rows) + "\n\n")
+
+        # ---- the sites
+        def size_rule(name, body, var, what):
+            """classify the conversion of the evaluated constant `var` in `body`"""
+            b = normws(body)
+            unwrap = bool(re.search(r"Ok\(ir::Constant::Enum\(_, val\)\) => val\.to_uint64\(\)", b))
+            if not re.search(r"\b" + var + r"\.to_uint64\(\)", b):
+                raise ExtractError(f"{what}: `{var}.to_uint64()` not found")
+            zero = bool(re.search(r"Some\(0\) => \{? ?return Err\(TyperError::ArrayDimensionsMustBeNonZero", b))
+            m32 = bool(re.search(r"Some\(v\) if v <= u32::MAX as u64 => (Ok\()?v as u32\)?,", b))
+            # no other guard on the converted value may exist
+            others = re.findall(r"Some\((\w+)\) if ([^=]*)=>", b)
+            for v, g in others:
+                if normws(g) != "v <= u32::MAX as u64":
+                    raise ExtractError(f"{what}: unknown guard `{normws(g)}` on the converted value")
+            if re.search(r"to_uint64\(\)\s*\.\s*(map|unwrap|and_then|filter)", b):
+                raise ExtractError(f"{what}: the converted value is post-processed in a way the model does not read")
+            return f"def {name} : SizeRule := ⟨{str(unwrap).lower()}, {str(zero).lower()}, {str(m32).lower()}⟩\n"
+
+        decl = T.src("typer/src/typer/declarations.rs")
+        out.append("/-- array sizes: `parse_declarator` -/\n" + size_rule("arraySize", fn_body(decl, "parse_declarator"), "val", "parse_declarator"))
+        pipes = T.src("typer/src/typer/pipelines.rs")
+        out.append("/-- `numthreads` arguments: the closure in `add_stage` -/\n" + size_rule("numthreads", fn_body(pipes, "add_stage"), "value", "add_stage"))
+        out.append("/-- pipeline / static sampler properties that are unsigned integers: `extract_uint32` -/\n" + size_rule("pipelineUint", fn_body(pipes, "extract_uint32"), "value", "extract_uint32"))
+        globs = T.src("typer/src/typer/globals.rs")
+        out.append("/-- `bind_group`, `vk::binding`: `parse_expr_as_u32` -/\n" + size_rule("exprAsU32", fn_body(globs, "parse_expr_as_u32"), "evaluated", "parse_expr_as_u32"))
+        stmts = T.src("typer/src/typer/statements.rs")
+        out.append("/-- `[unroll(n)]`: `parse_statement_attribute` -/\n" + size_rule("unroll", fn_body(stmts, "parse_statement_attribute"), "value", "parse_statement_attribute"))
+
+        # WriteMask: u8::try_from(value)
+        bs = normws(fn_body(pipes, "parse_blend_state"))
+        if not re.search(r'"WriteMask" => \{ let value = extract_uint32\(&property\.value, context\)\?; let value = match u8::try_from\(value\) \{ Ok\(value\) => value, _ => \{ return Err', bs):
+            raise ExtractError("parse_blend_state: WriteMask is not `u8::try_from(extract_uint32(..)?)`")
+        out.append("/-- `WriteMask`: `u8::try_from` of the 32-bit value -/\ndef writeMaskMax : Nat := 255\n")
+
+        # case label: the evaluated constant is stored unchanged
+        ps = normws(fn_body(stmts, "parse_statement"))
+        if not re.search(r"let value = match evaluate_constexpr\(&value_expr\.0, &mut context\.module\) \{ Ok\(constant\) => constant, Err\(_\) => \{ return Err\(TyperError::ExpressionIsNotConstantExpression\(cond\.location\)\); \} \};", ps) \
+                or not re.search(r"kind: ir::StatementKind::CaseLabel\(value\)", ps):
+            raise ExtractError("parse_statement: the case label is not the evaluated constant stored unchanged")
+        out.append("/-- a case label is the evaluated constant, stored unchanged -/\ndef caseLabelAsIs : Bool := true\n")
+
+        # const initialisers: folded only when the declared type is const; value stored unchanged
+        for fname, text in (("parse_rootdefinition_globalvariable", globs), ("parse_vardef", stmts)):
+            b = normws(fn_body(text, fname))
+            if not re.search(r"if let Some\(ir::Initializer::Expression\(expr\)\) = &var_init \{ let \(_, type_mod\) = context\.module\.type_registry\.extract_modifier\(type_id\); "
+                             r"if type_mod\.is_const && let Ok\(value\) = evaluate_constexpr\(expr, &mut context\.module\) \{ return Some\(value\); \} \} None", b):
+                raise ExtractError(f"{fname}: the constant value of an initialiser is not `is_const && evaluate_constexpr(expr)` stored unchanged")
+        out.append("/-- an initialiser is folded exactly when the declared type is `const`; the value is stored unchanged -/\ndef constInitNeedsConst : Bool := true\n")
+
+        # template value arguments
+        types = T.src("typer/src/typer/types.rs")
+        pe = fn_body(types, "parse_and_evaluate_constant_expression")
+        _, arms, _ = first_match(pe, r"^constant$")
+        tk = []
+        dflt = False
+        for pats, guard, result in match_arms(arms):
+            r = normws(result)
+            if guard is not None:
+                raise ExtractError("parse_and_evaluate_constant_expression: guard")
+            if pats == ["_"]:
+                if not r.startswith("return Err(TyperError::ExpressionIsNotConstantExpression"):
+                    raise ExtractError(f"parse_and_evaluate_constant_expression: default arm {r!r}")
+                dflt = True
+                continue
+            for pt in pats:
+                pm = re.fullmatch(r"ir::Constant::(\w+)\(v\)", pt)
+                if not pm or r != f"ir::RestrictedConstant::{pm.group(1)}(v)":
+                    raise ExtractError(f"parse_and_evaluate_constant_expression: arm {pt} => {r} is not the identity")
+                tk.append(pm.group(1))
+        if not dflt:
+            raise ExtractError("parse_and_evaluate_constant_expression: no default arm")
+        out.append("/-- kinds a template value argument may have (`parse_and_evaluate_constant_expression`); each is kept unchanged, any other kind is `not a constant expression` -/\n")
+        out.append("def templateKinds : List Kind := " + T.lean_list(f".{k}" for k in tk) + "\n\n")
+
+        # ---- enums.rs
+        enums = T.src("typer/src/typer/enums.rs")
+        eb = fn_body(enums, "parse_rootdefinition_enum")
+        ebn = normws(eb)
+        # allowed static types of an initialiser
+        m = re.search(r"match context\.module\.type_registry\.get_type_layer\(unmodified_id\) \{(.*?)\} let evaluated", ebn)
+        if not m:
+            raise ExtractError("parse_rootdefinition_enum: type dispatch of the initialiser not found")
+        disp = m.group(1)
+        allowed = re.findall(r"ir::TypeLayer::Scalar\(ir::ScalarType::(\w+)\)", disp.split("=>")[0])
+        if not allowed:
+            raise ExtractError("parse_rootdefinition_enum: no allowed scalar types")
+        enum_cast = bool(re.search(r"ir::TypeLayer::Enum\(id\) => \{ let underlying_type = context\.module\.enum_registry\.get_underlying_type_id\(id\); "
+                                   r"let cast = ImplicitConversion::find\( expr_ir\.1, underlying_type\.to_rvalue\(\), &mut context\.module, \) \.unwrap\(\); "
+                                   r"expr_ir\.0 = cast\.apply\(expr_ir\.0, &mut context\.module\) \}", disp))
+        if not re.search(r"_ => \{ return Err\(TyperError::EnumValueMustBeInteger\(expr\.location\)\); \}", disp):
+            raise ExtractError("parse_rootdefinition_enum: other types are not rejected with EnumValueMustBeInteger")
+        if not re.search(r"let evaluated = match evaluate_constexpr\(&expr_ir\.0, &mut context\.module\) \{ Ok\(value\) => value, "
+                         r"Err\(_\) => return Err\(TyperError::ExpressionIsNotConstantExpression\(expr\.location\)\), \};", ebn):
+            raise ExtractError("parse_rootdefinition_enum: the initialiser is not evaluate_constexpr / ExpressionIsNotConstantExpression")
+        out.append("/-- static types an enumerator initialiser may have -/\ndef enumAllowed : List Scalar := " + T.lean_list(f".{k}" for k in allowed) + "\n")
+        out.append(f"/-- an enum-typed initialiser is first converted to the underlying type of *its* enum -/\ndef enumCastsEnumTyped : Bool := {str(enum_cast).lower()}\n")
+        m = re.search(r"None => \( ir::Constant::(\w+)\((-?\d+)\),", ebn)
+        if not m:
+            raise ExtractError("parse_rootdefinition_enum: value of the first enumerator without initialiser not found")
+        out.append(f"/-- the first enumerator without initialiser -/\ndef enumFirst : Kind × Int := (.{m.group(1)}, {m.group(2)})\n")
+        _, narms, _ = first_match(eb, r"^last_value\.0$")
+        nrows = []
+        npanic = None
+        for pats, guard, result in match_arms(narms):
+            r = normws(result)
+            if guard is not None:
+                raise ExtractError("parse_rootdefinition_enum: guard in the successor match")
+            if pats == ["_"]:
+                pm = re.fullmatch(r'panic!\("([^"]*)"\)', r)
+                if not pm:
+                    raise ExtractError(f"parse_rootdefinition_enum: successor default {r!r}")
+                npanic = pm.group(1)
+                continue
+            for pt in pats:
+                pm = re.fullmatch(r"ir::Constant::(\w+)\(v\)", pt)
+                if not pm:
+                    raise ExtractError(f"parse_rootdefinition_enum: successor pattern {pt!r}")
+                k = pm.group(1)
+                if r == f"v.checked_add(1).map(ir::Constant::{k})":
+                    nrows.append((k, ".checkedSucc"))
+                elif k == "Bool" and r == "Some(ir::Constant::Int32(i32::from(v) + 1))":
+                    nrows.append((k, ".boolSucc"))
+                else:
+                    raise ExtractError(f"parse_rootdefinition_enum: successor arm {pt} => {r}")
+        if npanic is None:
+            raise ExtractError("parse_rootdefinition_enum: successor match has no default arm")
+        if not re.search(r"None => \{ return Err\(TyperError::EnumValueOverflow\(member\.name\.location\)\); \}", ebn):
+            raise ExtractError("parse_rootdefinition_enum: a successor that does not fit is not EnumValueOverflow")
+        if not re.search(r"context\.register_enum_value\(id, member\.name\.clone\(\), value\.clone\(\), ty\)\?; last_value = Some\(\(value, ty\)\);", ebn):
+            raise ExtractError("parse_rootdefinition_enum: last_value is not the value just registered")
+        out.append("/-- successor per kind of the previous value; other kinds panic -/\ndef enumNext : List (Kind × NextArm) := " + T.lean_list(f"(.{k}, {a})" for k, a in nrows) + "\n")
+        out.append(f"def enumNextPanic : String := {lean_str(npanic)}\n")
+
+        # ---- scopes.rs end_enum
+        scopes = T.src("typer/src/typer/scopes.rs")
+        ee = fn_body(scopes, "end_enum")
+        een = normws(ee)
+        if not re.search(r"let mut min_value = 0; let mut max_value = 0;", een):
+            raise ExtractError("end_enum: the range does not start at 0..0")
+        _, rarms, rend = first_match(ee, r"^\*constant$")
+        rk = []
+        rpanic = None
+        for pats, guard, result in match_arms(rarms):
+            r = normws(result)
+            if pats == ["_"]:
+                pm = re.fullmatch(r'panic!\("([^"{]*)\{constant:\?\}"\)', r)
+                if not pm:
+                    raise ExtractError(f"end_enum: range default {r!r}")
+                rpanic = pm.group(1)
+                continue
+            for pt in pats:
+                pm = re.fullmatch(r"ir::Constant::(\w+)\(value\)", pt)
+                if not pm:
+                    raise ExtractError(f"end_enum: range pattern {pt!r}")
+                k = pm.group(1)
+                want = "value" if k == "IntLiteral" else "value as i128"
+                if r != f"{{ min_value = std::cmp::min(min_value, {want}); max_value = std::cmp::max(max_value, {want}); }}":
+                    raise ExtractError(f"end_enum: range arm for {k} is {r!r}")
+                rk.append(k)
+        if rpanic is None:
+            raise ExtractError("end_enum: range match has no default arm")
+        m = re.search(r"let scalar_type = if (.*?) \{ ir::ScalarType::(\w+) \} else if (.*?) \{ ir::ScalarType::(\w+) \} else \{", een)
+        if not m:
+            raise ExtractError("end_enum: selection of the underlying type not found")
+        conds = []
+        for cond, sc in ((m.group(1), m.group(2)), (m.group(3), m.group(4))):
+            cm = re.fullmatch(r"min_value >= (i32|u32)::MIN as i128 && max_value <= (i32|u32)::MAX as i128", cond)
+            if not cm or cm.group(1) != cm.group(2):
+                raise ExtractError(f"end_enum: range condition {cond!r}")
+            conds.append((cm.group(1), sc))
+        if not re.search(r"return Err\(TyperError::EnumTypeCanNotBeDeduced\( location, min_value, max_value, \)\);", een):
+            raise ExtractError("end_enum: EnumTypeCanNotBeDeduced not found")
+        cm = re.search(r"let new_constant = match scalar_type \{ ir::ScalarType::Int32 => ir::Constant::Int32\(value as i32\), ir::ScalarType::UInt32 => ir::Constant::UInt32\(value as u32\), _ => unreachable!\(\), \};", een)
+        if not cm:
+            raise ExtractError("end_enum: conversion of the values to the underlying type not found")
+        out.append("/-- kinds `end_enum` accepts when it gathers the value range (each widened to i128); other kinds panic -/\n")
+        out.append("def enumRangeKinds : List Kind := " + T.lean_list(f".{k}" for k in rk) + "\n")
+        out.append(f"def enumRangePanic : String := {lean_str(rpanic)}\n")
+        out.append("/-- candidates for the underlying type in order: (Rust integer type whose MIN..MAX must contain the range, scalar chosen) -/\n")
+        out.append("def enumCandidates : List (String × Scalar) := " + T.lean_list(f"({lean_str(t)}, .{sc})" for t, sc in conds) + "\n")
+        out.append(T.footer("PosTable"))
+        return "".join(out)
+
